@@ -89,6 +89,30 @@ def check_header(case):
     hc = sp.SpacePacketHeader.from_composite_fields(pid, psc, f["dlen"], f["ver"])
     eq(devs, "composite.bytes", bytes(hc.pack()), raw)
     true(devs, "composite.eq", hc == h, "from_composite_fields != constructor")
+    # ---- histories: conversions and headers are independent of what happened to earlier results
+    other_apid, other_count = (f["apid"] + 1) % 2048, (f["count"] + 1) % 16384
+    pid2.apid = other_apid  # the owner of an earlier conversion result changes it ...
+    pid2.ptype = sp.PacketType(1 - f["ptype"])
+    eq(devs, "pid.from_raw.again_after_earlier_result_was_modified", sp.PacketId.from_raw(w0).raw(), p["packet_id"])  # ... converting the same word again still gives that word
+    psc2.seq_count = other_count
+    eq(devs, "psc.from_raw.again_after_earlier_result_was_modified", sp.PacketSeqCtrl.from_raw(p["psc"]).raw(), p["psc"])
+    hc2 = sp.SpacePacketHeader.from_composite_fields(pid, psc, f["dlen"], f["ver"])  # second header from the same caller-owned words
+    hc.apid = other_apid
+    hc.seq_count = other_count
+    hc.sec_header_flag = not bool(f["shf"])
+    hc.seq_flags = sp.SequenceFlags((f["flags"] + 1) % 4)
+    eq(devs, "composite.sibling_header_after_setters_on_first", bytes(hc2.pack()), raw)
+    eq(devs, "composite.caller_packet_id_untouched", pid.raw(), p["packet_id"])
+    eq(devs, "composite.caller_psc_untouched", psc.raw(), p["psc"])
+    d1 = sp.SpacePacketHeader.unpack(raw + tail)
+    d2 = sp.SpacePacketHeader.unpack(raw + tail)
+    d1.apid = other_apid
+    d1.seq_count = other_count
+    eq(devs, "dec.second_result_after_setters_on_first", bytes(d2.pack()), raw)
+    eq(devs, "dec.again_after_setters_on_earlier_result", bytes(sp.SpacePacketHeader.unpack(raw + tail).pack()), raw)
+    from ..core import pack_fresh
+
+    pack_fresh(devs, "enc.bytes_repeat", h.pack, raw)
     b1, b2 = sp.get_space_packet_id_bytes(sp.PacketType(f["ptype"]), bool(f["shf"]), f["apid"], f["ver"])
     eq(devs, "id_bytes", bytes([b1, b2]), raw[0:2])
     eq(devs, "apid_from_raw", sp.get_apid_from_raw_space_packet(raw + tail), f["apid"])
